@@ -28,7 +28,7 @@ def handleOk (s : St) (h b : Nat) : Bool :=
 def chk (s : St) : String :=
   let bs := List.range s.nb
   if !(bs.all (fun b => match s.blk b with | some (_, v) => wfBlk v | none => true)) then "wf"
-  else if s.stale == 0 && !((List.range 9).all (fun h => h == 0 || bs.all (fun b => handleOk s h b))) then "handle-ne-block"
+  else if !((List.range 9).all (fun h => h == 0 || bs.all (fun b => handleOk s h b))) then "handle-ne-block"
   else ""
 
 end CalicoVerif.C19
